@@ -40,7 +40,7 @@ def floors(ctx):
     return {"evaluations": 800 if q else 8000, "edges_checked": 2000 if q else 20000, "internal_selfloops": 100,
             "graphs_with_parallel": 50, "graphs_with_mixed_kinds": 50, "links_leaving_universe": 100,
             "empty_universe": 3, "undirected_merged_pairs": 20, "universes_over_256_members": 1, "cases_with_network_kwargs": 100,
-            "links_listing_a_third_vertex": 100}
+            "links_listing_a_third_vertex": 100, "graphs_with_non_default_laws": 100}
 
 
 NETWORK_KWARGS = [None, {"directed": True}, {"directed": False}, {"cdn_resources": "local", "directed": True, "notebook": False}]
@@ -155,7 +155,7 @@ def run(ctx):
     quick = ctx.tier == "quick"
     frng = random.Random(15)
     specs = []
-    for spec in graphs.family_specs(frng, sizes=(4, 7), ecls=graphs.ECLS_ALL, vcls=graphs.VCLS_MIX):
+    for spec in graphs.family_specs(frng, sizes=(4, 7), ecls=graphs.ECLS_X, vcls=graphs.VCLS_X):
         spec = dict(spec)
         if spec["uni"] is None:
             spec["uni"] = list(range(len(spec["verts"])))
@@ -168,8 +168,8 @@ def run(ctx):
     for nbig in (256, 257, 300, 600):
         edges = []
         for i in range(nbig):
-            edges.append([brng.choice(graphs.ECLS_ALL), i, i, 0])          # a self-loop on every member
-            edges.append([brng.choice(graphs.ECLS_ALL), i, (i * 7 + 1) % nbig, 1])
+            edges.append([brng.choice(graphs.ECLS_X), i, i, 0])          # a self-loop on every member
+            edges.append([brng.choice(graphs.ECLS_X), i, (i * 7 + 1) % nbig, 1])
         specs.append({"verts": ["Vertex"] * nbig, "edges": edges, "uni": list(range(nbig))})
     n_random = 12000 if quick else 30000
     k = 0
@@ -179,7 +179,7 @@ def run(ctx):
                 continue
             spec = specs[n]
         else:
-            spec = graphs.rand_spec(rng, nmax=7 if quick else 14, mmax=12 if quick else 35, ecls=graphs.ECLS_ALL,
+            spec = graphs.rand_spec(rng, nmax=7 if quick else 14, mmax=12 if quick else 35, ecls=graphs.ECLS_X,
                                     uni_mode="rand", self_p=0.15)
             if spec["uni"] is None:
                 spec["uni"] = [i for i in range(len(spec["verts"])) if rng.random() < 0.8]
